@@ -262,7 +262,7 @@ PROPS["C18"] = {
     "quick": shards(4, "TestC18", 60, floor=20) + shards(3, "TestC18", 25, race=True, floor=8, weight=3)
              + [S("TestC18ManyCalls", floor=5, env={"VERIF_PARTS": 4, "VERIF_PART": i}) for i in range(4)]
              + [S("TestC18Huge", floor=3, env={"VERIF_PARTS": 3, "VERIF_PART": i}) for i in range(3)],
-    "thorough": shards(8, "TestC18", 4000, floor=1000, timeout=3400) + shards(6, "TestC18", 800, race=True, floor=200, weight=2, timeout=3400)
+    "thorough": shards(8, "TestC18", 4000, floor=1000, timeout=3400) + shards(6, "TestC18", 400, race=True, floor=150, weight=2, timeout=3400)
              + [S("TestC18ManyCalls", floor=5, env={"VERIF_PARTS": 8, "VERIF_PART": i, "VERIF_CALLS": 1200000}, timeout=3400) for i in range(8)]
              + [S("TestC18Huge", floor=3, env={"VERIF_PARTS": 3, "VERIF_PART": i}) for i in range(3)],
     "assumptions": ["interleavings are sampled (barrier release, GOMAXPROCS), not enumerated", "the race detector only sees races on executed paths"],
